@@ -180,14 +180,14 @@ impl RelayTransport {
 //@|     assert(bufs@[i as int]@.subrange(0, metas@[i as int].len as int) =~= head_before.subrange(0, metas@[i as int].len as int));
 //@| }
 //@rwx A3 1
-//@- \.map_or\(1, \|ss\| (.+?)\);\n
-//@+ .map_or(1, |ss: NonZeroU16| -> (n: usize) ensures n >= 1, n == 1 || n * (ss@ as int) <= buf_out@.len() { proof { div_mul_le(buf_out@.len() as int, ss@ as int); } \1 });\n
+//@- \.map_or\(1, \|(\w+)\| (.+?)\);\n
+//@+ .map_or(1, |\1: NonZeroU16| -> (n: usize) ensures n >= 1, n == 1 || n * (\1@ as int) <= buf_out@.len() { proof { div_mul_le(buf_out@.len() as int, \1@ as int); } \2 });\n
 //@rwx A3 1
-//@- \.map_or\(dm\.datagrams\.contents\.len\(\), \|s\| (.+?)\);\n
-//@+ .map_or(dm.datagrams.contents.len(), |s: NonZeroU16| -> (n: usize) ensures n == s@ { \1 });\n
-//@rw R17 1
-//@- buf_out[..dm.datagrams.contents.len()].copy_from_slice(&dm.datagrams.contents);
-//@+ ioslice_copy_prefix(buf_out, dm.datagrams.contents.len(), &dm.datagrams.contents);
+//@- \.map_or\(([^,|]+), \|(\w+)\| (.+?)\);\n
+//@+ .map_or(\1, |\2: NonZeroU16| -> (n: usize) ensures n == \2@ { \3 });\n
+//@rwx R17 1
+//@- buf_out\[\.\.([^\]]+)\]\.copy_from_slice\(&dm\.datagrams\.contents\);
+//@+ ioslice_copy_prefix(buf_out, \1, &dm.datagrams.contents);
 //@end
 }
 } // verus!
